@@ -199,6 +199,15 @@ def r6(ctx, prog):
     ctx.floor(R, 1)
 
 
+def r7(ctx, prog):
+    R = ctx.rule("C13.R7", "ensure-committed means committed: mi_segment_commit extends commit_mask only after the OS accepted the commit and returns false otherwise "
+                           "(a bit set for refused memory is a span later used without a commit); the masks built for a slice range contain exactly its bits "
+                           "(a missing bit leaves a pending purge of live slices un-cancelled)")
+    shared.segment_commit_after_success(ctx, R, prog)
+    shared.commit_mask_exact(ctx, R, prog)
+    ctx.floor(R, 4)
+
+
 def run(ctx):
     ctx.explanation = ("Static decision of the code-shaped half of C13 ('purging never touches live data'): orientation of the conservative/liberal rounding and of every caller's "
                        "constant, purge⊆commit intersection and clearing on commit, commit-before-use dominance, the in-use bracket around arena purges and the order of "
@@ -207,7 +216,7 @@ def run(ctx):
     for c in (["REL"] if ctx.tier == "quick" else ["REL", "SEC", "DBG"]):
         prog = ctx.prog(c)
         n0 = len(ctx.instances)
-        r1(ctx, prog); r2(ctx, prog); r3(ctx, prog); r4(ctx, prog); r5(ctx, prog); r6(ctx, prog)
+        r1(ctx, prog); r2(ctx, prog); r3(ctx, prog); r4(ctx, prog); r5(ctx, prog); r6(ctx, prog); r7(ctx, prog)
         if c != "REL":
             for i in ctx.instances[n0:]:
                 i["site"] += " [%s]" % c
